@@ -28,7 +28,7 @@ Req(entry, v, f, D) == v + Layer(f) * (IF entry = "forced" /\ "D7" \in D THEN 2 
 
 Fresh(s, v, f, entry, D) ==
   [s EXCEPT !.ex = TRUE, !.sver = Req(entry, v, f, D), !.sfmt = f, !.data = <<>>,
-            !.holes = IF "D21" \in D /\ IsRaw(f) /\ s.holesEx THEN s.holes ELSE {},
+            !.holes = IF "D21" \in D /\ s.holesEx THEN s.holes ELSE {},      \* (the region survives also while the name holds a compressed vector)
             !.holesEx = IF "D21" \in D THEN s.holesEx ELSE FALSE,
             !.res = "ok", !.view = <<>>,
             !.vholes = IF "D21" \in D /\ IsRaw(f) /\ s.holesEx THEN s.holes ELSE {}, !.cur = f]
